@@ -241,6 +241,18 @@ def _run(V, work, tier):
         picks = rnd.sample(LITS, 8)
         src = "(defun lits (a) (list a %s))\n(probe 'lits (lits 0))\n(probe 'sum (+ %s))\n" % (" ".join(picks), " ".join(x for x in picks if x[0] not in "\"':"))
         sessions.append(("literals%d" % i, [src], False, None))
+    # the SAME programs cut into two files at a top-level boundary (one minify session over both files): what one file
+    # defines and the other mentions - through a call, a macro body, a local macro, a template, a set - must keep meeting
+    base = list(sessions)
+    for name, files, kw, feats in base:
+        if len(files) != 1:
+            continue
+        lines = [l for l in files[0].split("\n") if l.strip()]
+        if len(lines) < 2:
+            continue
+        cuts = list(range(1, len(lines)))
+        for k in (cuts if thorough and len(cuts) <= 6 else rnd.sample(cuts, min(len(cuts), 3 if thorough else 1))):
+            sessions.append((name.rstrip("0123456789") + "-split", ["\n".join(lines[:k]) + "\n", "\n".join(lines[k:]) + "\n"], kw, feats))
     OPTS = [("default", {"preserve_params": True}), ("rename-params", {"preserve_params": False}),
             ("rename-exports", {"preserve_params": True, "rename_exports": True}), ("exclusions", {"preserve_params": True, "exclusions": ["f0", "x", "helper", "tmp"]})]
     mrecs, meta = [], {}
@@ -248,7 +260,8 @@ def _run(V, work, tier):
         for oname, o in OPTS:
             if oname == "rename-params" and kw:
                 continue
-            if oname == "rename-exports" and not name.startswith("pkg"):
+            if oname == "rename-exports" and (not name.startswith("pkg") or name.endswith("-split")):
+                # (--rename-exports is outside the statement; it is exercised where every file carries its own package header)
                 continue
             cid = "%d/%s" % (si, oname)
             mrecs.append(dict({"id": cid, "files": [{"path": "f%d.lisp" % j, "src": s} for j, s in enumerate(files)]}, **o))
@@ -281,7 +294,7 @@ def _run(V, work, tier):
             key = None
             if oname in ("default", "exclusions") and name.startswith("pkg"):
                 key = "export-renamed"
-            if name == "letself":
+            if name.startswith("letself"):
                 key = "let-closure-self-reference"
             V.add(key, "minified session behaves differently from the original (%s)" % oname,
                   {"files": files, "feats": feats, "kind": name.rstrip("0123456789"), "minified": r["outputs"], "map": r["map"]["m2o"], "original_result": a[-1][0][:300], "minified_result": b[-1][0][:300]})
